@@ -111,6 +111,29 @@ CHECKS = {
             'product is the bounded slice of it.',
             'Trusted: ref/negotiate.py, html.parser, json, xml.etree.',
             'DESIGN.md section 5, C09'),
+    'C10': ('E1-product-enumerator',
+            'bounded-exhaustive enumeration of application trees; differential comparison of the nested real '
+            'application with a flat real application built from an independent flattening',
+            'Chains of depth 2 and 3 over prefixes, middleware lists (unique/non-unique, shared/unshared types), '
+            'resources shared with the outermost level, three slash modes, per-level tagging error handlers '
+            '(plain/contextual), render factories, inherit_slashes and rebind_render flags, enumerated as complete '
+            'products per layer (thorough: the full depth-2 cross product); both applications answer the same request '
+            'catalogue under every prefix and outside it and must agree on status, body, Location, Content-Type, '
+            'middleware trace and rendering error handler.',
+            'Trusted: ref/flatten.py. Names defined only by two inner levels are excluded, as in the property.',
+            'DESIGN.md section 5, C10'),
+    'C11': ('E2-history-bfs',
+            'explicit-state breadth-first search over operation histories replayed on fresh real objects, invariant '
+            '(model routing table + probe answers + structural digest) checked in every state',
+            'All histories up to depth 4 (thorough 5, three live applications) over {construct application (4 kinds), '
+            'failing constructor, add Route/tuple/GET route/SubApplication at index None/0/1, five kinds of failing '
+            'add}; distinct model states are enumerated first, every enabled operation is then executed from each on '
+            'fresh objects; after every transition every live application must show the model routing table, answer '
+            '16 probes as ref/dispatch.py predicts (marker, middlewares run, resource value), shared Route objects '
+            'must equal their snapshot, and a failing operation must raise and change nothing.',
+            'Trusted: the harness model of add()/embedding and ref/dispatch.py; merging by model state is justified by '
+            'asserting, in every state, that the structure of the real objects is a function of the model state.',
+            'DESIGN.md section 5, C11'),
 }
 
 NOT_YET = 'check not built yet in this revision of /verif (planned: bounded exhaustive exploration, see DESIGN.md section 5)'
